@@ -88,8 +88,22 @@ func (x *Exec) registerField(owner *types.Named, field string, comp string, sort
 		h.fieldInit[key] = name
 		h.fieldOrder = append(h.fieldOrder, key)
 		x.closedness(name, sort, elemT, x.alloc0, comp)
+		if comp == "cap" {
+			x.sliceFieldInv(func(k string) string { return h.fieldInit[k] }, strings.TrimSuffix(key, "#cap"))
+		}
+		x.recordKey(preregKey{kind: "field", owner: owner, field: field, comp: comp, sort: sort, elemT: elemT})
 	}
 	return key
+}
+
+// sliceFieldInv: the four components stored for a slice-typed field always form a well-formed slice header.
+func (x *Exec) sliceFieldInv(get func(key string) string, base string) {
+	arr, off, ln, cp := get(base+"#arr"), get(base+"#off"), get(base+"#len"), get(base+"#cap")
+	if arr == "" || off == "" || ln == "" || cp == "" {
+		return
+	}
+	x.ctx.Assume(fmt.Sprintf("(forall ((r Int)) (! (and (<= 0 (select %s r)) (<= 0 (select %s r)) (<= (select %s r) (select %s r)) (<= (select %s r) 1099511627776) (=> (= (select %s r) 0) (and (= (select %s r) 0) (= (select %s r) 0)))) :pattern ((select %s r)) :pattern ((select %s r)) :pattern ((select %s r))))",
+		off, ln, ln, cp, cp, arr, cp, off, ln, cp, off))
 }
 
 // closedness: every reference stored in the heap points to an allocated object.
@@ -122,6 +136,7 @@ func (x *Exec) elemsArr(st *State, sort string) string {
 	}
 	a := x.ctx.Fresh("E_"+sort, arrSort("Int", arrSort("Int", sort)))
 	x.heap.elemInit[sort] = a
+	x.recordKey(preregKey{kind: "elem", sort: sort})
 	return a
 }
 
@@ -131,6 +146,7 @@ func (x *Exec) mapKey(ks, vs string) string {
 		x.heap.mapSorts[k] = [2]string{ks, vs}
 		x.heap.mdomInit[k] = x.ctx.Fresh("MD_"+k, arrSort("Int", arrSort(ks, "Bool")))
 		x.heap.mvalInit[k] = x.ctx.Fresh("MV_"+k, arrSort("Int", arrSort(ks, vs)))
+		x.recordKey(preregKey{kind: "map", ks: ks, vs: vs})
 	}
 	return k
 }
